@@ -43,9 +43,9 @@ func c20(e *Env) {
 	e.tableImmutability("table-immutability", "v3/metric", "v2/metric", "v3/version")
 	c.Analysed["metric_fields"] = nf
 	c.Analysed["tables"] = len(e.F.AllTabs)
-	for _, p := range e.F.Problems {
-		c.Fail("table-model", "package-level tables", "", p)
-	}
+	e.tableModelProblems(func(t *facts.Table) bool {
+		return t.IsData() && tableInPkgs(t, "v3/metric", "v2/metric", "v3/version")
+	})
 }
 
 func (e *Env) metricTables(l *facts.Level, fv *types.Var, m *spec.Metric) {
